@@ -76,9 +76,10 @@ class Session:
     def new_bytes(self):
         return bytes(self.rec.data[self._consumed:])
 
-    def poll(self):
+    def poll(self, each=None):
         """Lex and execute everything emitted since the last poll.
-        Returns the list of new (words, comments, rawline)."""
+        Returns the list of new (words, comments, rawline); `each(words, raw)`
+        is called after each line has been executed by the machine."""
         data = self.new_bytes()
         self._consumed = len(self.rec.data)
         if not data:
@@ -95,6 +96,8 @@ class Session:
             except gcode_lex.LexError as e:
                 raise Violation(f"malformed block {line!r}: {e}")
             self.machine.execute(words)
+            if each is not None:
+                each(words, line)
             out.append((words, comments, line))
         self.blocks.extend(out)
         return out
